@@ -27,6 +27,44 @@ from kmip.services.server import session as session_mod
 from vlib import ttlvref
 
 VERSIONS = [(1, 0), (1, 1), (1, 2), (1, 3), (1, 4), (2, 0)]
+
+
+# ------------------------------------------------------------------------------ cost bound
+class _CostBound(object):
+    """Stands for a `cryptography` sub-module inside kmip.services.server.crypto.engine and
+    refuses the two calls whose cost is unbounded in a request field (RSA modulus size, PBKDF2
+    iteration count): a mangled request (one flipped bit in a length) would otherwise occupy a
+    worker for hours.  Resource use is not among the properties; the refusal is an error the
+    crypto engine already turns into an ordinary error result."""
+
+    def __init__(self, mod):
+        self._mod = mod
+
+    def __getattr__(self, name):
+        return getattr(self._mod, name)
+
+    def generate_private_key(self, public_exponent, key_size, *a, **k):
+        if isinstance(key_size, int) and key_size > 4096:
+            raise ValueError("harness cost bound: RSA modulus of %d bits" % key_size)
+        return self._mod.generate_private_key(public_exponent, key_size, *a, **k)
+
+    def PBKDF2HMAC(self, *a, **k):
+        it = k.get("iterations", a[3] if len(a) > 3 else 0)
+        if isinstance(it, int) and it > 2_000_000:
+            from kmip.core import exceptions as kexc   # this call site has no handler of its own
+            raise kexc.InvalidField("harness cost bound: %d PBKDF2 iterations" % it)
+        return self._mod.PBKDF2HMAC(*a, **k)
+
+
+def _install_cost_bound():
+    from kmip.services.server.crypto import engine as ce
+    if not isinstance(ce.rsa, _CostBound):
+        ce.rsa = _CostBound(ce.rsa)
+    if not isinstance(ce.pbkdf2, _CostBound):
+        ce.pbkdf2 = _CostBound(ce.pbkdf2)
+
+
+_install_cost_bound()
 _AF = attr_factory_mod.AttributeFactory()
 
 
